@@ -230,7 +230,7 @@ def _c09_runs(tier):
 
 PROPS["C09"] = dict(
     level="exploration", runs=_c09_runs,
-    rule="(width sweep) 30 data-movement / element-wise / observer / small-product entry points on views of EVERY width 1..130 plus 191..320 (every residue of the column count modulo 64), rows {6,33} (thorough also 1,70), 4 placements incl. view of a view, all operands / first / last operand as views; (registry) op registry (81 entry points: data movement, row/column/bit primitives, permutation application, observers, every multiplication route, echelon forms, PLE/PLUQ, TRSM x4, inversion, solve, kernel, table construction) x its shapes (view widths mod 64 in {0,1,33,63,..}) x EVERY non-empty subset of matrix operands being a window x placement alphabet (row offset {0,1,3}, word offset {0,1,2} incl. odd = 8-mod-16 rows, trailing words {0,1,2}, trailing rows {0,2}; 16 placements quick / all 54 thorough) x surrounding fill {ones, pseudo-random} x 2 data sets; oracle is differential: same call on standalone copies; non-trivial = every case (a window is involved); distinct = distinct (op, shape, window mask, placement, fill, data)",
+    rule="(width sweep) the data-movement, element-wise, observer, small-product, permutation, elimination, PLE/PLUQ, kernel, triangular-solve and triangular-inversion entry points (50 of the 81) on views of EVERY width 1..130 plus 191..320 (heavier ones: a residue subset in quick) (every residue of the column count modulo 64), rows {6,33} (thorough also 1,70), 4 placements incl. view of a view, all operands / first / last operand as views; (registry) op registry (81 entry points: data movement, row/column/bit primitives, permutation application, observers, every multiplication route, echelon forms, PLE/PLUQ, TRSM x4, inversion, solve, kernel, table construction) x its shapes (view widths mod 64 in {0,1,33,63,..}) x EVERY non-empty subset of matrix operands being a window x placement alphabet (row offset {0,1,3}, word offset {0,1,2} incl. odd = 8-mod-16 rows, trailing words {0,1,2}, trailing rows {0,2}; 16 placements quick / all 54 thorough) x surrounding fill {ones, pseudo-random} x 2 data sets; oracle is differential: same call on standalone copies; non-trivial = every case (a window is involved); distinct = distinct (op, shape, window mask, placement, fill, data)",
     level_text="Bounded-exhaustive differential exploration of window operands: every operation x every subset of operands placed as views at every placement class with dirty surroundings; view contents, scalar results and returned matrices must equal those of the same call on standalone copies, every parent bit outside the view (including bits sharing the last word) must be unchanged, read-only operands untouched, and no sanitizer report (odd word offsets exercise the 8-mod-16 vector paths).",
     level_note="Bounded: 2 data sets and 3-13 shapes per operation, dimensions <= 704. The reference is the library itself on standalone operands (whose correctness is the subject of C01-C08, C13, C17).",
     technique="bounded-exhaustive enumeration of operand placements on the real code with a differential oracle (standalone copies) and parent snapshots",
